@@ -936,6 +936,13 @@ def flush(ctx, pending):
 def run(ctx):
     rnd = ctx.rng
     pending = []
+    for name, obj in C.corpus_cases(PROP):   # minimised past failures first
+        import copy
+        r = replay(ctx, copy.deepcopy(obj))
+        ctx.count('corpus')
+        if r.get('fails'):
+            ctx.fail(obj.get('signature', 'corpus:' + name), 'corpus case fails: ' + name + ' ' + repr(r.get('violations'))[:300],
+                     obj.get('input'), r.get('outcome'))
     for k in range(ctx.n(150, 1200)):
         one_mesh(ctx, rnd, pending)
         if len(pending) > 200:
